@@ -432,4 +432,8 @@ def check(ctx, rep):
 
     # 'one result per executed codemod, in execution order': the report is compiled from the requested sequence, so the apply loop must follow it
     rule_exec_order(ctx, rep)
+    from .c09 import rule_finding_owns_rule
+
+    # a finding's own identity (rule id, name, url) reaches the report unaltered by other findings / codemods
+    rule_finding_owns_rule(ctx, rep)
     rep.not_covered += ["JSON-schema validity of pydantic's serialisation", "line numbers lying inside the file", "non-ASCII content"]
